@@ -35,6 +35,7 @@ class DeviceConfig:
     hello_name: str | None = None          # name in the API HelloResponse (default: name)
     noise_psk: bytes | None = None         # None = plaintext device
     noise_name: bytes | None | str = "default"  # name in the noise hello (default: name; None = absent)
+    noise_hello_mac: bool | None = None     # further NUL-terminated field (MAC) behind the name, as current firmware sends; None = rotate
     invalid_password: bool = False
     noise_silent: bool = False              # never answer the noise handshake
     reply_delay: float = 0.0
@@ -125,7 +126,8 @@ class DeviceConn:
                 if name == "default":
                     name = self.cfg.name.encode()
                 hello = b"\x01" + (b"" if name is None else (name if isinstance(name, bytes) else name.encode()) + b"\x00")
-                if name is not None and rotation.decide("noise_hello_mac_field", (False, True)):
+                mac = self.cfg.noise_hello_mac
+                if name is not None and (rotation.decide("noise_hello_mac_field", (False, True)) if mac is None else mac):
                     hello += b"aabbccddeeff\x00"    # current firmware announces further NUL-terminated fields behind the name (MAC address)
                 try:
                     if body[:1] != b"\x00":
